@@ -464,6 +464,10 @@ impl LyNative for ListRemove {
       return self.call_error(hooks, format!("Cannot remove at negative index {index}."));
     }
 
+    if index.is_nan() || (index.is_finite() && index.fract() != 0.0) {
+      return self.call_error(hooks, "Index must be an integer.");
+    }
+
     if list.has_moved() {
       hooks.scan_roots();
     }
@@ -507,6 +511,10 @@ impl LyNative for ListInsert {
 
     if index < 0.0 {
       return self.call_error(hooks, format!("Cannot insert at index {index}"));
+    }
+
+    if index.is_nan() || (index.is_finite() && index.fract() != 0.0) {
+      return self.call_error(hooks, "Index must be an integer.");
     }
 
     let result = list.insert(index as usize, args[2], &hooks.as_gc());
